@@ -70,7 +70,7 @@ class C08(fw.Prop):
                 for cic in ((0, 2 ** 32 - 3) if chal_len == 8 else (rng.choice([0, 5, 1000]),)):
                     ek, ak = (1, klen), (2, klen)
                     chal = bytes((i * 3 + chal_len) % 256 for i in range(chal_len)).hex()
-                    cfg = cl.Cfg(ek=ek, ak=ak, suite=suite, auth=5, cic=cic, challenge=chal)
+                    cfg = cl.Cfg(ek=ek, ak=ak, suite=suite, auth=5, cic=cic, challenge=chal, dedicated=(chal_len + suite) % 3)
 
                     def P():
                         return PathK(cfg, ek, ak)
@@ -84,6 +84,10 @@ class C08(fw.Prop):
                     for m in ("mal0", "mal1", "mal2", "mal3", "mal4", "mal5"):
                         variants.append((m, 0))
                     variants.append((f"proof;{sc};9;junk", 0))
+                    # answers whose security-control byte does not even claim authentication, with the tag AES-GCM gives for
+                    # no associated data at all under the encryption key (needs no authentication key, no challenge)
+                    for fsc in (0, suite, 0x20 + suite, 0x40 + suite):
+                        variants.append((f"proof;{fsc};9;emptyaad,1,{klen},{MT},9", 0))
                     variants.append((f"proof;{sc};10;mac,1,{klen},{MT},9,{sc},2,{klen},{chal}", 0))           # counter field altered
                     variants.append((f"proof;{sc + 64};9;mac,1,{klen},{MT},9,{sc},2,{klen},{chal}", 0))       # security control altered
                     variants.append((f"proof;{sc};9;mac,3,{klen},{MT},9,{sc},2,{klen},{chal}", 0))            # wrong key
